@@ -53,6 +53,7 @@ KEY_NORM = "dmrg2:normalisation:max_bond_below_phys_dim:truncating_final_update"
 KEY_NORM_EN = "dmrg2:reported_energy:max_bond_below_phys_dim:truncating_final_update"
 KEY_L2 = "dmrg2:raised:two_site_chain:leftward_sweep"
 KEY_POS = "dmrg1:total_energy:positive_ground_energy:uncanonized_sweep_after_bond_expansion"
+KEY_NOISE = "dmrg1:total_energy:expansion_noise_ge_1e-5:uncanonized_sweep_after_bond_expansion"
 
 # ----------------------------------------------------------------------------
 # builders
@@ -451,6 +452,57 @@ def exact_case(ctx, col, rng, n, spec=None):
             M = Hd.T if ket_upper else Hd
             if not np.array_equal(P.conj().T @ M @ P, Heff):
                 ctx.violation("dmrg:heff", "effective Hamiltonian is not the restriction P^dagger H P of the operator its energy network denotes", dsc)
+            # the OTHER local-operator path: the lazy TNLinearOperator (taken when prod(dims) >= 800 or forced)
+            linop_path(ctx, col, r2, dm, i, dims, lix, uix, hole, P.conj().T @ M @ P, Heff, m, dsc, both_envs)
+
+
+def linop_path(ctx, col, r2, dm, i, dims, lix, uix, hole, Hmodel, Hdense, m, dsc, both_envs):
+    """form_local_ops with opts['local_eig_ham_dense'] = False: the effective Hamiltonian as a linear operator.  It must
+    act exactly as the restriction P^dagger H P: matvec on integer vectors (checked in Coq against the network with the
+    site tensors removed and the vector plugged into the KET labels), to_dense, rmatvec (numpy, exact integers)."""
+    import scipy.sparse.linalg as spla
+
+    saved = dm.opts["local_eig_ham_dense"]
+    dm.opts["local_eig_ham_dense"] = False
+    try:
+        A, Neff = dm.form_local_ops(i, dims, lix, uix)
+    finally:
+        dm.opts["local_eig_ham_dense"] = saved
+    ctx.count(("exact", dsc["n"], "heff_linop", dsc["begin"], i), both_envs, n=4)
+    ctx.bump("heff:linear_operator")
+    dl = {**dsc, "path": "TNLinearOperator"}
+    if not isinstance(A, spla.LinearOperator) or isinstance(A, np.ndarray):
+        ctx.violation("dmrg:heff:linear_operator:type", "local_eig_ham_dense=False does not produce a linear operator", dl)
+        return
+    if tuple(A.shape) != (m, m) or Neff is not None:
+        ctx.violation("dmrg:heff:linear_operator:shape", "lazy effective Hamiltonian has the wrong shape", dl)
+        return
+    cplx = bool(np.iscomplexobj(Hmodel) and np.abs(np.imag(Hmodel)).max() > 0)
+    y = np.array([complex(r2.randint(-2, 2), r2.randint(-2, 2)) for _ in range(m)])
+    try:
+        Ay = np.asarray(A @ y).reshape(-1)
+        Ad = np.asarray(A.to_dense())
+        AHy = np.asarray(A.rmatvec(y)).reshape(-1)
+    except Exception as e:
+        ctx.violation("dmrg:heff:linear_operator:raised", f"lazy effective Hamiltonian raised {type(e).__name__}: {str(e)[:120]}", dl)
+        return
+    # Coq: the network with the hole, the vector on the ket labels, open bra labels
+    shape = [int(d_) for d_ in dims]
+    col.add({**dl, "check": "e3:linear operator matvec = network with hole applied to the vector", "y": [str(z) for z in y]},
+            tm.dense_check_expr(hole + [(tuple(uix), y.reshape(shape))], tuple(lix), 0, Ay), exact_fail)
+    bad = []
+    if not np.array_equal(Ay, Hmodel @ y):
+        bad.append("matvec != (P^dagger H P) y")
+    if not np.array_equal(Ad, Hmodel):
+        bad.append("to_dense != P^dagger H P")
+    if not np.array_equal(AHy, Hmodel.conj().T @ y):
+        bad.append("rmatvec != (P^dagger H P)^dagger y")
+    if not np.array_equal(Ad, Hdense):
+        bad.append("lazy and dense effective Hamiltonians differ")
+    if bad:
+        ctx.violation("dmrg:heff:linear_operator" + (":complex_hermitian_mpo" if cplx else ""),
+                      "effective Hamiltonian wrapped as TNLinearOperator (local_eig_ham_dense=False / prod(dims) >= 800) is not the "
+                      "restriction P^dagger H P: " + "; ".join(bad), dl)
 
 
 def env_matrix(dm, i, bsz, uix):
@@ -490,6 +542,8 @@ def exact_fail(ctx, dsc):
             ctx.violation(KEY_F11_NET, "DMRG's energy network does not denote <psi|H|psi> (Coq: networks differ)", dsc)
         else:
             ctx.violation("dmrg:energy_network", "DMRG's energy network does not denote <psi|H|psi> (Coq: networks differ)", dsc)
+    elif chk.startswith("e3"):
+        ctx.violation("dmrg:heff:linear_operator", f"lazy effective Hamiltonian check failed against the Coq model ({chk})", dsc)
     elif chk.startswith("e"):
         ctx.violation("dmrg:heff", f"effective Hamiltonian check failed against the Coq model ({chk})", dsc)
     elif chk.startswith("a:"):
@@ -558,8 +612,37 @@ def oracle_spec(ctx, rng, n):
     cut = rng.choice([1e-10, 1e-12, [1e-6, 1e-10], [1e-8, 1e-12], 1e-14])
     seq = rng.choice(["R", "RL", "LR", "RRL", "L", "RLL"])
     p0 = rng.choice(["rand", "rand", "rand_chi1", "rand_complex", "product", "big"])
-    return {"d": d, "L": L, "family": fam, "ham_complex": cplx, "bsz": bsz, "bond_dims": bds, "cutoffs": cut,
+    spec = {"d": d, "L": L, "family": fam, "ham_complex": cplx, "bsz": bsz, "bond_dims": bds, "cutoffs": cut,
             "sweep_sequence": seq, "p0": p0, "max_sweeps": rng.randint(3, 7), "seed": rng.getrandbits(24)}
+    spec["opts"] = rand_opts(rng, bsz) if rng.random() < 0.6 else {}
+    return spec
+
+
+def rand_opts(rng, bsz):
+    """every switch of DMRG.opts that selects a code path for open boundaries (see get_default_opts)"""
+    o = {}
+    dense = rng.choice([None, True, False, False])
+    if dense is not None:
+        o["local_eig_ham_dense"] = dense  # False: effective Hamiltonian as a lazy TNLinearOperator
+    backends = [None, "scipy", "lobpcg"] + (["numpy"] if dense is True else [])
+    b = rng.choice(backends)
+    if b is not None:
+        o["local_eig_backend"] = b
+    if rng.random() < 0.4:
+        o["local_eig_tol"] = rng.choice([1e-3, 1e-6, 1e-10])
+    if rng.random() < 0.3:
+        o["local_eig_ncv"] = rng.choice([4, 8])
+    if rng.random() < 0.2:
+        o["local_eig_maxiter"] = 200
+    if bsz == 2 and rng.random() < 0.4:
+        o["bond_compress_method"] = rng.choice(["svd", "eig", "svds"])
+    if bsz == 2 and rng.random() < 0.4:
+        o["bond_compress_cutoff_mode"] = rng.choice(["sum2", "rel", "abs", "rsum2"])
+    if bsz == 1 and rng.random() < 0.4:
+        o["bond_expand_rand_strength"] = rng.choice([1e-8, 1e-6, 1e-4])
+    if rng.random() < 0.15:
+        o["default_sweep_sequence"] = rng.choice(["RL", "R", "LR"])  # used when solve() gets no sweep_sequence
+    return o
 
 
 def build_ham(spec):
@@ -633,6 +716,10 @@ def oracle_run(ctx, col, spec, n):
     ctx.count(("oracle", json.dumps(spec, sort_keys=True)), cplxH or trunc_sched or spec["max_sweeps"] >= 2)
     try:
         dm = cls(H, bond_dims=spec["bond_dims"], cutoffs=spec["cutoffs"], p0=p0)
+        opts = dict(spec.get("opts") or {})
+        dm.opts.update(opts)
+        for k_ in opts:
+            ctx.bump(f"oracle:opt:{k_}={opts[k_]}")
         # observe the sweep calls (schedule, canonize flag) and the bonds after every sweep / update
         log = []
         real_sweep = dm.sweep
@@ -644,6 +731,7 @@ def oracle_run(ctx, col, spec, n):
             upd.clear()
             r = real_sweep(direction, canonize=canonize, **kw)
             log.append({"dir": direction, "canonize": bool(canonize), "max_bond": kw.get("max_bond"), "cutoff": kw.get("cutoff"),
+                        "method": kw.get("method"), "cutoff_mode": kw.get("cutoff_mode"),
                         "before": before, "after": bonds_of(dm._k), "updates": list(upd)})
             return r
 
@@ -655,9 +743,10 @@ def oracle_run(ctx, col, spec, n):
 
         dm.sweep = sweep_spy
         dm._update_local_state = update_spy
-        conv = dm.solve(tol=1e-9, max_sweeps=spec["max_sweeps"], sweep_sequence=spec["sweep_sequence"])
+        use_default_seq = "default_sweep_sequence" in opts
+        conv = dm.solve(tol=1e-9, max_sweeps=spec["max_sweeps"], sweep_sequence=None if use_default_seq else spec["sweep_sequence"])
     except Exception as e:
-        if bsz == 2 and L == 2 and "L" in spec["sweep_sequence"][: spec["max_sweeps"]] and isinstance(e, UnboundLocalError):
+        if bsz == 2 and L == 2 and isinstance(e, UnboundLocalError):
             ctx.violation(KEY_L2, "DMRG2 on a two-site chain raises UnboundLocalError in MovingEnvironment.init_segment(begin='right') "
                           "on the first leftward sweep", desc)
         else:
@@ -670,7 +759,9 @@ def oracle_run(ctx, col, spec, n):
     v = np.asarray(psi.to_dense()).reshape(-1)
     E_dense = complex(v.conj() @ Hd @ v) / complex(v.conj() @ v)
     E_conj = complex(v @ Hd @ v.conj()) / complex(v.conj() @ v)
-    tol = 1e-8 * scale
+    opts = dict(spec.get("opts") or {})
+    loose = opts.get("bond_compress_method") == "eig"  # eigendecomposition of the Gram matrix: isometries to ~1e-8 only
+    tol = (1e-6 if loose else 1e-8) * scale
     res = {"reported": str(E_rep), "E_lib": str(E_lib), "E_dense": str(E_dense), "E0": E0, "norm": str(nrm), "converged": bool(conv)}
     if n < 4:
         ctx.sample({**desc, **res})
@@ -682,7 +773,7 @@ def oracle_run(ctx, col, spec, n):
     # 2. the state is normalised
     caps_ = [int(s_["max_bond"]) for s_ in log]
     trunc_final = bsz == 2 and caps_[-1] < d  # the last split of the sweep (chain end, full rank d) is truncated
-    unnorm = abs(nrm - 1) > 1e-8
+    unnorm = abs(nrm - 1) > (1e-6 if loose else 1e-8)
     if unnorm:
         if trunc_final:
             ctx.violation(KEY_NORM, "DMRG2 with max_bond < phys_dim: the last 2-site update of the sweep truncates and the returned "
@@ -722,11 +813,18 @@ def oracle_run(ctx, col, spec, n):
     # 1-site sweeps that skip the canonization (alternating sweep sequences) right after the bond expansion see a
     # non-isometric environment; with a positive ground energy the padding's ~0 pseudo-eigenvalues win (known finding)
     pos_class = bsz == 1 and E0 > 0 and any(not s_["canonize"] for s_ in log)
+    # same cause, second input class: a large expansion noise (opts['bond_expand_rand_strength'] >= 1e-5) makes the
+    # O(noise^2) non-orthonormality of the uncanonized environment visible in the total energies for any spectrum
+    noise_class = (bsz == 1 and not pos_class and float(opts.get("bond_expand_rand_strength", 1e-6)) >= 1e-5
+                   and any(not s_["canonize"] for s_ in log))
     tot = np.real(np.array(flat))
     if tot.min() < E0 - tol:
         if pos_class:
             ctx.violation(KEY_POS, "DMRG1, positive ground energy, sweep without canonization after the bond expansion: total energies "
                           "below the exact ground energy (not energies of a normalised state)", {**desc, **res, "min_total": float(tot.min())})
+        elif noise_class and tot.min() > E0 - 1e-4 * scale:
+            ctx.violation(KEY_NOISE, "DMRG1, expansion noise >= 1e-5, sweep without canonization after the bond expansion: total energies "
+                          "slightly below the exact ground energy (environment not orthonormal)", {**desc, **res, "min_total": float(tot.min())})
         else:
             ctx.violation(f"dmrg{bsz}:total_energy_below_ground", "a total energy recorded during the sweeps is below the exact ground energy",
                           {**desc, **res, "min_total": float(tot.min())})
@@ -734,10 +832,14 @@ def oracle_run(ctx, col, spec, n):
         nper = L - bsz + 1
         for j in range(1, len(tot)):
             boundary = j % nper == 0
-            allow = (1e-4 if (bsz == 1 and boundary) else 1e-7) * scale
+            noise = float(opts.get("bond_expand_rand_strength", 1e-6))
+            allow = (max(1e-4, 100 * noise) if (bsz == 1 and boundary) else (1e-5 if loose else 1e-7)) * scale
             if tot[j] - tot[j - 1] > allow:
                 if pos_class:
                     ctx.violation(KEY_POS, "DMRG1, positive ground energy, sweep without canonization after the bond expansion: the total "
+                                  "energy increases across local updates", {**desc, **res, "step": j, "before": float(tot[j - 1]), "after": float(tot[j])})
+                elif noise_class and tot[j] - tot[j - 1] < 1e-4 * scale:
+                    ctx.violation(KEY_NOISE, "DMRG1, expansion noise >= 1e-5, sweep without canonization after the bond expansion: the total "
                                   "energy increases across local updates", {**desc, **res, "step": j, "before": float(tot[j - 1]), "after": float(tot[j])})
                 else:
                     ctx.violation(f"dmrg{bsz}:monotone", "total energy increased across an untruncated local update",
@@ -763,6 +865,7 @@ def oracle_run(ctx, col, spec, n):
     # couplings without symmetry sectors (random Hermitian terms / SpinHam1D with transverse field) and an entangled
     # random initial state (a product state in a symmetry sector can trap 1-site updates)
     generic = spec["family"] in ("float", "spinham") and spec["p0"] in ("rand", "rand_complex", "big") and min(bonds0) >= 2
+    generic = generic and opts.get("local_eig_backend") != "lobpcg" and not loose  # loosely converged local solves: energy only to ~1e-7
     if conv and admits and gap > 1e-3 * scale and not generic:
         ctx.bump("oracle:ed_skipped_nongeneric")
     if conv and admits and gap > 1e-3 * scale and generic:
@@ -785,13 +888,18 @@ def oracle_run(ctx, col, spec, n):
                               {**desc, **res, "fidelity": fid})
     # 9. bookkeeping correspondence with the Coq sweep machine (exact integers)
     bds = list(spec["bond_dims"])
-    seqc = [0 if c == "R" else 1 for c in spec["sweep_sequence"]]
+    seq_used = (spec.get("opts") or {}).get("default_sweep_sequence", spec["sweep_sequence"])
+    seqc = [0 if c == "R" else 1 for c in seq_used]
     for k, s in enumerate(log):
         col.add({**desc, "check": "schedule", "sweep": k},
                 f"Nat.eqb (sched {natlist(bds)} {k}) {int(s['max_bond'])} && Nat.eqb (dir_at {natlist(seqc)} {k}) {0 if s['dir'] == 'R' else 1}",
                 sweep_fail)
         col.add({**desc, "check": "canonize", "sweep": k, "observed": bool(s["canonize"])},
                 f"Bool.eqb (canonize_at {natlist(seqc)} {k}) {str(s['canonize']).lower()}", sweep_fail)
+    for k, s in enumerate(log):
+        if s["method"] != opts.get("bond_compress_method", "svd") or s["cutoff_mode"] != opts.get("bond_compress_cutoff_mode", "sum2"):
+            ctx.violation("dmrg:sweep_opts", "sweep did not receive the compression method / cutoff mode set in opts", {**desc, "sweep": k})
+            break
     cutl = spec["cutoffs"] if isinstance(spec["cutoffs"], list) else [spec["cutoffs"]]
     for k, s in enumerate(log):
         if float(s["cutoff"]) != float(cutl[min(k, len(cutl) - 1)]):
@@ -854,7 +962,7 @@ def periodic_stream(ctx):
     import quimb as qu
     import quimb.tensor as qtn
 
-    for n in range(ctx.n(1, 4)):
+    for n in range(ctx.n(2, 6)):
         L = 6
         H = qtn.MPO_ham_heis(L, cyclic=True) if n % 2 == 0 else qtn.MPO_ham_XY(L, cyclic=True)
         bsz = 2 if n % 4 < 2 else 1
@@ -865,6 +973,12 @@ def periodic_stream(ctx):
             # the settings the library's own tests use for small periodic systems
             dm.opts["periodic_segment_size"] = 1.0
             dm.opts["periodic_nullspace_fudge_factor"] = 1e-6
+            if n % 3 == 1:
+                dm.opts["local_eig_ham_dense"] = False  # lazy effective Hamiltonian (and norm)
+            if n % 3 == 2:
+                dm.opts["local_eig_ham_dense"] = True
+                dm.opts["local_eig_norm_dense"] = False
+            desc["opts"] = {k_: dm.opts[k_] for k_ in ("local_eig_ham_dense", "local_eig_norm_dense")}
             dm.solve(tol=1e-3, max_sweeps=4)
         except Exception as e:
             ctx.bump("periodic:raised")
@@ -965,6 +1079,7 @@ def replay_one(ctx, rep, col=None):
     col = col or Collector()
     if kind == "oracle":
         spec = {k: rep[k] for k in ("d", "L", "family", "ham_complex", "bsz", "bond_dims", "cutoffs", "sweep_sequence", "p0", "max_sweeps", "seed")}
+        spec["opts"] = rep.get("opts") or {}
         oracle_run(ctx, col, spec, 10**6)
     elif kind == "exact":
         spec = {k: rep[k] for k in ("d", "L", "ham_complex", "psi_complex", "chi", "cls", "sub")}
